@@ -126,7 +126,8 @@ class Ctx:
         """Journal the case about to run so that a crash of the library leaves a reproducer behind."""
         j = self.journal
         if j is not None:
-            data = json.dumps({"subcheck": self.sub, "config": self.cfg, "case": enc(case)}).encode()
+            data = json.dumps({"subcheck": self.sub, "config": self.cfg, "case": enc(case),
+                               "prov": {"worker": self.worker, "nworkers": self.nworkers, "n": getattr(self, "cur_n", 0), "tier": self.tier, "vseed": self.vseed}}).encode()
             if len(data) + 8 <= len(j) - 16:
                 j[8:8 + len(data)] = data
                 j[0:8] = len(data).to_bytes(8, "little")
@@ -176,6 +177,7 @@ def _write_replay(pid, sub, cfg, case, v, vseed):
 def _run_sub(ctx, sub, cfg, n, libs, shrink=True):
     """Run one subcheck under Hypothesis in this worker. Returns failure tuple or None."""
     ctx.sub, ctx.cfg = sub.name, cfg
+    ctx.cur_n = n
     ctx.idle()      # set-up work (loading libraries, parsing assembly listings) is not a library call under watch
     env = sub.setup(cfg) if sub.setup else libs(cfg)
     state = {"last": None}
@@ -508,7 +510,7 @@ def run_property(mod, pid, tier, vseed, nworkers=None, only_sub=None, extra_stat
                 errors.append("worker died before running any case (exit code %s)" % p.exitcode)
             else:
                 j = json.loads(bytes(jr[8:8 + n]).decode())
-                crashes.append((j["subcheck"], j["config"], j["case"], p.exitcode))
+                crashes.append((j["subcheck"], j["config"], j["case"], p.exitcode, j.get("prov")))
             continue
         if kind == "error":
             errors.append(out)
@@ -543,9 +545,9 @@ def run_property(mod, pid, tier, vseed, nworkers=None, only_sub=None, extra_stat
         return 2
     for (s_, c_, case_enc, secs) in hangs:
         agg["failures"].append((s_, c_, case_enc, "%s/hang" % s_, "the library call did not return within %.0f s on this case (cases take milliseconds): worker stopped by the watchdog" % secs))
-    for (s_, c_, case_enc, code) in crashes:
+    for (s_, c_, case_enc, code, prov_) in crashes:
         what = "signal %d" % -code if code is not None and code < 0 else "exit code %s" % code
-        agg["failures"].append((s_, c_, case_enc, "%s/crash" % s_, "the library call did not return: worker terminated by %s (memory fault / sanitizer abort) on this case" % what))
+        agg["failures"].append((s_, c_, case_enc, "%s/crash" % s_, "the library call did not return: worker terminated by %s (memory fault / sanitizer abort / allocator integrity check) on this case" % what, prov_))
 
     kn, fixed = load_known()
     known = {(k["property"], k["signature"]): k for k in kn}
@@ -568,7 +570,7 @@ def run_property(mod, pid, tier, vseed, nworkers=None, only_sub=None, extra_stat
                 ok, _ = replay_case(mod, pid, path)
             except Exception:
                 ok = True
-        if not ok and prov is not None and not sig.endswith(("/hang", "/crash")):
+        if not ok and prov is not None and not sig.endswith("/hang"):
             # the case passes on its own: does the generated history that led to it fail again?
             with open(path) as fh:
                 body = json.load(fh)
